@@ -65,7 +65,10 @@ def inlinable(prog, cb):
     if cb is None or cb.def_kind not in ("Fn", "AssocFn") or cb.test or cb.path.startswith("<"):
         return False
     sig = prog.fnsigs.get(cb.path)
-    if sig is None or sig.get("exported") or not _procedure_like(sig):
+    if sig is None or sig.get("exported"):
+        return False
+    out = sig.get("output", "")
+    if out.startswith("impl ") or "dyn " in out:
         return False
     if any(x.coroutine for x in prog.families.get(cb.root, [])):
         return False
@@ -75,8 +78,6 @@ def inlinable(prog, cb):
 
 
 def _caller_ok(b):
-    if b.test:
-        return False
     n = b.name
     if n.startswith("net::frame::") or "LogReader::" in n:
         return False
@@ -374,7 +375,7 @@ def _find_await(blocks, bc):
     return {"into": b1, "awaitee": awaitee, "poll": poll, "sw": sw, "ready": ready[0], "ydrop": ydrop}
 
 
-def _thread_chain(rec, start, P, S, kind):
+def _thread_chain(rec, start, P, S, kind, known=None, max_steps=40, no_calls=False):
     """Copy the straight-line chain that starts at block `start` and decide, in the copy, the
     switches whose outcome is known: on the discriminant of a Poll held in a local of P (Ready),
     and — when kind is 'Ok'/'Err' — on the Result (or the ControlFlow `?` makes of it) held in a
@@ -382,11 +383,13 @@ def _thread_chain(rec, start, P, S, kind):
     blocks = rec["blocks"]
     P, S, CF, D = set(P), set(S), set(), {}
     S2 = set()
+    B = dict(known or {})  # local -> "0"/"1": a bool whose value is known on this path
     cur, first, prev = start, None, None
     main, sub = (kind.split(":") + [None])[:2] if kind else (None, None)
     want = None if main not in ("Ok", "Err") else ("0" if main == "Ok" else "1")
     want2 = {"None": "0", "Some": "1"}.get(sub)
-    for _step in range(40):
+    decided_any = False
+    for _step in range(max_steps):
         nb = copy.deepcopy(blocks[cur])
         idx = len(blocks)
         blocks.append(nb)
@@ -399,6 +402,17 @@ def _thread_chain(rec, start, P, S, kind):
             if st["k"] != "assign" or st["pl"]["p"]:
                 continue
             rv = st["rv"]
+            tl = st["pl"]["l"]
+            if rv["k"] == "use" and rv["op"].get("k") in ("move", "copy") and not rv["op"]["pl"]["p"] and rv["op"]["pl"]["l"] in B:
+                B[tl] = B[rv["op"]["pl"]["l"]]
+                continue
+            if rv["k"] == "un" and rv.get("op") == "Not" and rv["a"].get("k") in ("move", "copy") and not rv["a"]["pl"]["p"] and rv["a"]["pl"]["l"] in B:
+                B[tl] = "1" if B[rv["a"]["pl"]["l"]] == "0" else "0"
+                continue
+            if rv["k"] == "use" and rv["op"].get("k") == "const" and rv["op"].get("ty") == "bool" and rv["op"].get("int") in ("0", "1"):
+                B[tl] = rv["op"]["int"]
+                continue
+            B.pop(tl, None)
             if rv["k"] == "use" and rv["op"].get("k") in ("move", "copy"):
                 src = rv["op"]["pl"]
                 if not src["p"] and src["l"] in S:
@@ -421,15 +435,41 @@ def _thread_chain(rec, start, P, S, kind):
         if t is None:
             break
         k = t["k"]
+        if k == "switch" and t["op"].get("k") in ("move", "copy") and not t["op"]["pl"]["p"] and t["op"]["pl"]["l"] in B and t.get("ty") == "bool":
+            v = B[t["op"]["pl"]["l"]]
+            arm = [bb for vv, bb in t["targets"] if vv == v]
+            arm = arm[0] if arm else t["otherwise"]
+            nb["term"] = {"k": "goto", "t": arm, "span": t.get("span"), "exp": t.get("exp", ""), "threaded": "flag"}
+            decided_any = True
+            if kind is None:
+                break
+            cur = arm
+            continue
         if k == "switch" and t["op"].get("k") in ("move", "copy") and not t["op"]["pl"]["p"] and t["op"]["pl"]["l"] in D:
             v, final = D[t["op"]["pl"]["l"]]
             arm = [bb for vv, bb in t["targets"] if vv == v]
             arm = arm[0] if arm else t["otherwise"]
             nb["term"] = {"k": "goto", "t": arm, "span": t.get("span"), "exp": t.get("exp", ""), "threaded": kind or "Ready"}
-            if final or want is None:
+            if want is None:
+                break
+            if final:
+                # an Err keeps travelling: `?` re-wraps it and the caller tests it again
+                if want == "1" and _step < 30:
+                    cur = arm
+                    continue
                 break
             cur = arm
             continue
+        if k == "call" and want is not None and t["t"] is not None and not t["dest"]["p"] and t["args"] and t["args"][0].get("k") in ("move", "copy") and not t["args"][0]["pl"]["p"]:
+            cal = t.get("callee") or ""
+            a0 = t["args"][0]["pl"]["l"]
+            # the residual of a decided `?` re-wrapped (`from_residual`), or the output re-wrapped: still that kind
+            if (cal.endswith("FromResidual::from_residual") and want == "1") or (cal.endswith("Try::from_output") and want == "0" and a0 in S2 | S):
+                S.add(t["dest"]["l"])
+                cur = t["t"]
+                continue
+        if k == "call" and no_calls:
+            break
         if k == "call":
             if want is not None and (t.get("callee") or "").endswith("Try::branch") and t["args"] and t["args"][0].get("k") in ("move", "copy") and not t["args"][0]["pl"]["p"] and t["args"][0]["pl"]["l"] in S and not t["dest"]["p"] and t["t"] is not None:
                 CF.add(t["dest"]["l"])
@@ -441,7 +481,45 @@ def _thread_chain(rec, start, P, S, kind):
             cur = nx[0]
             continue
         break
+    if known is not None and not decided_any:
+        # nothing was decided: drop the useless copies
+        del blocks[first:]
+        return None
     return first
+
+
+def thread_const_flags(rec):
+    """Classic jump threading for boolean flags: a block that assigns a constant to a bool local
+    (`matches!(…)`, the short-circuit arms of `a && b` / `a || b`, `let found = false`) and then
+    runs, through a few straight-line blocks without calls, into a switch on that flag jumps to the
+    decided arm through its own copy of those blocks. Path rules then see `if matches!(e, Io(x) if
+    x.kind() == Eof)` as the nested match it abbreviates."""
+    blocks = rec["blocks"]
+    changed = False
+    n0 = len(blocks)
+    for bi in range(n0):
+        blk = blocks[bi]
+        t = blk["term"]
+        if not t or t["k"] not in ("goto", "falseedge") or blk["cleanup"]:
+            continue
+        known = {}
+        for st in blk["stmts"]:
+            if st["k"] == "assign" and not st["pl"]["p"]:
+                rv = st["rv"]
+                if rv["k"] == "use" and rv["op"].get("k") == "const" and rv["op"].get("ty") == "bool" and rv["op"].get("int") in ("0", "1"):
+                    known[st["pl"]["l"]] = rv["op"]["int"]
+                else:
+                    known.pop(st["pl"]["l"], None)
+        if not known:
+            continue
+        nxt = _succ_idx(t)
+        if len(nxt) != 1 or nxt[0] >= n0:
+            continue
+        first = _thread_chain(rec, nxt[0], set(), set(), None, known=known, max_steps=8, no_calls=True)
+        if first is not None:
+            _retarget(t, nxt[0], first)
+            changed = True
+    return changed
 
 
 def _inline_await(prog, rec, bc, cb, k, done, stack):
@@ -516,10 +594,89 @@ def _ctor_of(prog, op):
     return None
 
 
+def _closure_def_of(rec, op):
+    """path of the closure body when the operand is a local assigned once, from a closure literal"""
+    if op.get("k") not in ("move", "copy") or op["pl"]["p"]:
+        return None
+    l = op["pl"]["l"]
+    found = None
+    n = 0
+    for blk in rec["blocks"]:
+        for st in blk["stmts"]:
+            if st["k"] == "assign" and st["pl"]["l"] == l and not st["pl"]["p"]:
+                n += 1
+                if st["rv"]["k"] == "agg" and st["rv"].get("ak") == "closure":
+                    found = st["rv"].get("def")
+    return found if n == 1 else None
+
+
+def _closure_rec(prog, kb, _depth=[0]):
+    """the closure's own body with its combinators written out as well (nested closures)"""
+    if _depth[0] > 3:
+        return copy.deepcopy(kb.rec)
+    _depth[0] += 1
+    try:
+        r = desugar_only(prog, kb.rec)
+    finally:
+        _depth[0] -= 1
+    return r if r is not None else copy.deepcopy(kb.rec)
+
+
+def _splice_closure(prog, rec, krec, env_op, arg_ops, ret_to, unwind_to, cleanup, span, exp, on_return, thread=None):
+    """copy the body of a (non-capturing-by-move-sensitive) closure into rec; returns the entry block.
+    env_op: operand holding the closure; arg_ops: operands bound to its parameters; on_return(l0)
+    gives the statements to run with the closure's result local before jumping to ret_to"""
+    blocks = rec["blocks"]
+    krec = split_returns(krec)
+    loff = len(rec["locals"])
+    poff = len(rec.get("promoted", []))
+    lmap = lambda l, loff=loff: l + loff
+    for i, lo in enumerate(krec["locals"]):
+        lo2 = copy.deepcopy(lo)
+        if 1 <= i <= krec["arg_count"]:
+            lo2["alias"] = True
+        lo2["inlined_from"] = krec["path"]
+        rec["locals"].append(lo2)
+    for d in krec.get("debug", []):
+        d2 = copy.deepcopy(d)
+        d2["pl"] = _remap(d["pl"], lmap, poff)
+        d2["arg"] = None
+        rec.setdefault("debug", []).append(d2)
+    rec.setdefault("promoted", []).extend(copy.deepcopy(krec.get("promoted", [])))
+    pending = []
+    # entry: bind env and parameters
+    entry = len(blocks)
+    binds = [{"k": "assign", "pl": {"l": lmap(1), "p": []}, "rv": {"k": "use", "op": copy.deepcopy(env_op) if env_op.get("k") != "move" else dict(copy.deepcopy(env_op), k="copy")}, "span": span, "exp": exp}]
+    for i, a in enumerate(arg_ops):
+        binds.append({"k": "assign", "pl": {"l": lmap(i + 2), "p": []}, "rv": {"k": "use", "op": copy.deepcopy(a)}, "span": span, "exp": exp})
+    blocks.append({"cleanup": cleanup, "stmts": binds, "term": {"k": "goto", "t": entry + 1, "span": span, "exp": exp}})
+    boff = len(blocks)
+    for cblk in krec["blocks"]:
+        nb = {"cleanup": cblk["cleanup"] or cleanup, "stmts": [_remap(s2, lmap, poff) for s2 in cblk["stmts"]], "term": None}
+        ct = cblk["term"]
+        if ct is not None:
+            ct2 = _shift_term(_remap(ct, lmap, poff), boff, unwind_to)
+            if ct2["k"] == "return":
+                nb["stmts"].extend(on_return(lmap(0)))
+                kind = ct2.get("ret_kind")
+                ct2 = {"k": "goto", "t": ret_to, "span": ct.get("span"), "exp": ct.get("exp", ""), "inlined_return": krec["path"]}
+                if thread is not None and kind and kind.split(":")[0] in ("Ok", "Err"):
+                    pending.append((nb, kind))
+            elif ct2["k"] == "resume" and isinstance(unwind_to, int):
+                ct2 = {"k": "goto", "t": unwind_to, "span": ct.get("span"), "exp": ct.get("exp", ""), "inlined_resume": krec["path"]}
+            nb["term"] = ct2
+        blocks.append(nb)
+    for nb, kind in pending:
+        nb["term"]["t"] = _thread_chain(rec, ret_to, set(), {thread}, kind)
+    rec.setdefault("inlined_closures", []).append(krec["path"])
+    return entry
+
+
 def desugar_combinators(prog, rec):
-    """`opt.map_or(default, Enum::Variant)` and `opt.map(Enum::Variant)` written out as the match
-    they abbreviate (the library source of Option::map / map_or is exactly that match): the rules
-    see the same aggregates and edges as for `match opt { Some(v) => Enum::Variant(v), None => … }`"""
+    """`opt.map_or(default, f)` and `opt.map(f)` written out as the match they abbreviate (the library
+    source of Option::map / map_or is exactly that match), for f an enum constructor
+    (`Frame::BulkString`) or a closure literal whose body is copied in place: the rules see the same
+    aggregates, comparisons and edges as for `match opt { Some(v) => f(v), None => default }`"""
     changed = False
     blocks = rec["blocks"]
     for bi in range(len(blocks)):
@@ -527,6 +684,49 @@ def desugar_combinators(prog, rec):
         if not t or t["k"] != "call" or t["t"] is None:
             continue
         cn = strip_generics(t.get("callee") or "")
+        if cn in ("core::bool::then", "std::bool::then", "core::bool::then_some", "std::bool::then_some") and len(t["args"]) == 2:
+            cond, f = t["args"]
+            sp, ex, cl = t.get("span"), t.get("exp", ""), blocks[bi]["cleanup"]
+            if cond.get("k") not in ("move", "copy"):
+                continue
+            kb = None
+            if cn.endswith("::then"):
+                kdef = _closure_def_of(rec, f)
+                kb = prog.bodies.get(kdef) if kdef else None
+                if kb is None or kb.coroutine or kb.arg_count != 1 or len(kb.blocks) > 200 or kb.path == rec["path"]:
+                    continue
+            dest = copy.deepcopy(t["dest"])
+            n_none = len(blocks)
+            blocks.append({"cleanup": cl, "stmts": [{"k": "assign", "pl": copy.deepcopy(dest), "rv": {"k": "agg", "ak": "adt", "adt": "std::option::Option", "variant": "None", "fields": [], "ops": []}, "span": sp, "exp": ex}], "term": {"k": "goto", "t": t["t"], "span": sp, "exp": ex}})
+            some_of = lambda op: [{"k": "assign", "pl": copy.deepcopy(dest), "rv": {"k": "agg", "ak": "adt", "adt": "std::option::Option", "variant": "Some", "fields": ["0"], "ops": [op]}, "span": sp, "exp": ex}]
+            if kb is None:
+                n_some = len(blocks)
+                blocks.append({"cleanup": cl, "stmts": some_of(copy.deepcopy(f)), "term": {"k": "goto", "t": t["t"], "span": sp, "exp": ex}})
+            else:
+                n_some = _splice_closure(prog, rec, _closure_rec(prog, kb), f, [], t["t"], t["unwind"], cl, sp, ex, lambda l0: some_of({"k": "move", "pl": {"l": l0, "p": []}}))
+            blocks[bi]["term"] = {"k": "switch", "op": dict(copy.deepcopy(cond), k="copy"), "ty": "bool", "targets": [["0", n_none]], "otherwise": n_some, "span": sp, "exp": ex, "desugared": cn}
+            changed = True
+            continue
+        if cn == "std::result::Result::map" and len(t["args"]) == 2:
+            # Ok(v) => Ok(f(v)), Err(e) => Err(e) (library source of Result::map), f a closure literal
+            x, f = t["args"]
+            kdef = _closure_def_of(rec, f)
+            kb = prog.bodies.get(kdef) if kdef else None
+            if kb is None or kb.coroutine or kb.arg_count != 2 or len(kb.blocks) > 200 or kb.path == rec["path"] or x.get("k") not in ("move", "copy") or x["pl"]["p"]:
+                continue
+            xl = x["pl"]["l"]
+            sp, ex, cl = t.get("span"), t.get("exp", ""), blocks[bi]["cleanup"]
+            dl = len(rec["locals"])
+            rec["locals"].append({"ty": "isize", "ty_def": None, "user": False})
+            dest = copy.deepcopy(t["dest"])
+            n_err = len(blocks)
+            blocks.append({"cleanup": cl, "stmts": [{"k": "assign", "pl": copy.deepcopy(dest), "rv": {"k": "agg", "ak": "adt", "adt": "std::result::Result", "variant": "Err", "fields": ["0"], "ops": [{"k": "move", "pl": {"l": xl, "p": [["dc", "Err", 1], ["f", 0, "0"]]}}]}, "span": sp, "exp": ex}], "term": {"k": "goto", "t": t["t"], "span": sp, "exp": ex}})
+            on_ret = lambda l0, dest=dest: [{"k": "assign", "pl": copy.deepcopy(dest), "rv": {"k": "agg", "ak": "adt", "adt": "std::result::Result", "variant": "Ok", "fields": ["0"], "ops": [{"k": "move", "pl": {"l": l0, "p": []}}]}, "span": sp, "exp": ex}]
+            n_ok = _splice_closure(prog, rec, _closure_rec(prog, kb), f, [{"k": "move", "pl": {"l": xl, "p": [["dc", "Ok", 0], ["f", 0, "0"]]}}], t["t"], t["unwind"], cl, sp, ex, on_ret)
+            blocks[bi]["stmts"].append({"k": "assign", "pl": {"l": dl, "p": []}, "rv": {"k": "discr", "pl": {"l": xl, "p": []}, "adt": "std::result::Result", "variants": [["0", "Ok"], ["1", "Err"]]}, "span": sp, "exp": ex})
+            blocks[bi]["term"] = {"k": "switch", "op": {"k": "move", "pl": {"l": dl, "p": []}}, "ty": "isize", "targets": [["0", n_ok], ["1", n_err]], "otherwise": n_err, "span": sp, "exp": ex, "desugared": cn}
+            changed = True
+            continue
         if cn == "std::option::Option::map_or" and len(t["args"]) == 3:
             x, dflt, f = t["args"]
         elif cn == "std::option::Option::map" and len(t["args"]) == 2:
@@ -534,34 +734,215 @@ def desugar_combinators(prog, rec):
             dflt = None
         else:
             continue
-        ctor = _ctor_of(prog, f)
-        if ctor is None or x.get("k") not in ("move", "copy") or x["pl"]["p"]:
+        if x.get("k") not in ("move", "copy") or x["pl"]["p"]:
             continue
-        adt, var = ctor
+        ctor = _ctor_of(prog, f)
+        kdef = None if ctor else _closure_def_of(rec, f)
+        kb = prog.bodies.get(kdef) if kdef else None
+        if ctor is None and (kb is None or kb.coroutine or kb.arg_count != 2 or len(kb.blocks) > 200 or kb.path == rec["path"]):
+            continue
         xl = x["pl"]["l"]
         dl = len(rec["locals"])
         rec["locals"].append({"ty": "isize", "ty_def": None, "user": False})
         sp, ex = t.get("span"), t.get("exp", "")
-        n_none, n_some = len(blocks), len(blocks) + 1
-        if dflt is not None:
-            none_rv = {"k": "use", "op": copy.deepcopy(dflt)}
-            some_rv = {"k": "agg", "ak": "adt", "adt": adt, "variant": var, "fields": ["0"], "ops": [{"k": "move", "pl": {"l": xl, "p": [["dc", "Some", 1], ["f", 0, "0"]]}}]}
+        cl = blocks[bi]["cleanup"]
+        payload = {"k": "move", "pl": {"l": xl, "p": [["dc", "Some", 1], ["f", 0, "0"]]}}
+        # None side
+        n_none = len(blocks)
+        none_rv = {"k": "use", "op": copy.deepcopy(dflt)} if dflt is not None else {"k": "agg", "ak": "adt", "adt": "std::option::Option", "variant": "None", "fields": [], "ops": []}
+        blocks.append({"cleanup": cl, "stmts": [{"k": "assign", "pl": copy.deepcopy(t["dest"]), "rv": none_rv, "span": sp, "exp": ex}], "term": {"k": "goto", "t": t["t"], "span": sp, "exp": ex}})
+        # Some side
+        if ctor is not None:
+            adt, var = ctor
+            built = {"k": "agg", "ak": "adt", "adt": adt, "variant": var, "fields": ["0"], "ops": [payload]}
+            if dflt is not None:
+                st_some = [{"k": "assign", "pl": copy.deepcopy(t["dest"]), "rv": built, "span": sp, "exp": ex}]
+            else:
+                il = len(rec["locals"])
+                rec["locals"].append({"ty": adt, "ty_def": None, "user": False})
+                st_some = [
+                    {"k": "assign", "pl": {"l": il, "p": []}, "rv": built, "span": sp, "exp": ex},
+                    {"k": "assign", "pl": copy.deepcopy(t["dest"]), "rv": {"k": "agg", "ak": "adt", "adt": "std::option::Option", "variant": "Some", "fields": ["0"], "ops": [{"k": "move", "pl": {"l": il, "p": []}}]}, "span": sp, "exp": ex},
+                ]
+            n_some = len(blocks)
+            blocks.append({"cleanup": cl, "stmts": st_some, "term": {"k": "goto", "t": t["t"], "span": sp, "exp": ex}})
         else:
-            none_rv = {"k": "agg", "ak": "adt", "adt": "std::option::Option", "variant": "None", "fields": [], "ops": []}
-            il = len(rec["locals"])
-            rec["locals"].append({"ty": adt, "ty_def": None, "user": False})
-            some_rv = None
-        blocks.append({"cleanup": blocks[bi]["cleanup"], "stmts": [{"k": "assign", "pl": copy.deepcopy(t["dest"]), "rv": none_rv, "span": sp, "exp": ex}], "term": {"k": "goto", "t": t["t"], "span": sp, "exp": ex}})
-        if some_rv is not None:
-            st_some = [{"k": "assign", "pl": copy.deepcopy(t["dest"]), "rv": some_rv, "span": sp, "exp": ex}]
-        else:
-            st_some = [
-                {"k": "assign", "pl": {"l": il, "p": []}, "rv": {"k": "agg", "ak": "adt", "adt": adt, "variant": var, "fields": ["0"], "ops": [{"k": "move", "pl": {"l": xl, "p": [["dc", "Some", 1], ["f", 0, "0"]]}}]}, "span": sp, "exp": ex},
-                {"k": "assign", "pl": copy.deepcopy(t["dest"]), "rv": {"k": "agg", "ak": "adt", "adt": "std::option::Option", "variant": "Some", "fields": ["0"], "ops": [{"k": "move", "pl": {"l": il, "p": []}}]}, "span": sp, "exp": ex},
-            ]
-        blocks.append({"cleanup": blocks[bi]["cleanup"], "stmts": st_some, "term": {"k": "goto", "t": t["t"], "span": sp, "exp": ex}})
+            dest = copy.deepcopy(t["dest"])
+            if dflt is not None:
+                on_ret = lambda l0, dest=dest: [{"k": "assign", "pl": copy.deepcopy(dest), "rv": {"k": "use", "op": {"k": "move", "pl": {"l": l0, "p": []}}}, "span": sp, "exp": ex}]
+            else:
+                on_ret = lambda l0, dest=dest: [{"k": "assign", "pl": copy.deepcopy(dest), "rv": {"k": "agg", "ak": "adt", "adt": "std::option::Option", "variant": "Some", "fields": ["0"], "ops": [{"k": "move", "pl": {"l": l0, "p": []}}]}, "span": sp, "exp": ex}]
+            n_some = _splice_closure(prog, rec, _closure_rec(prog, kb), f, [payload], t["t"], t["unwind"], cl, sp, ex, on_ret)
         blocks[bi]["stmts"].append({"k": "assign", "pl": {"l": dl, "p": []}, "rv": {"k": "discr", "pl": {"l": xl, "p": []}, "adt": "std::option::Option", "variants": [["0", "None"], ["1", "Some"]]}, "span": sp, "exp": ex})
         blocks[bi]["term"] = {"k": "switch", "op": {"k": "move", "pl": {"l": dl, "p": []}}, "ty": "isize", "targets": [["0", n_none], ["1", n_some]], "otherwise": n_none, "span": sp, "exp": ex, "desugared": cn}
+        changed = True
+    return changed
+
+
+_BY_REF_ITER = {"try_fold": 3, "try_for_each": 2, "any": 2, "all": 2, "find": 2, "position": 2}
+_BY_VAL_ITER = {"for_each": 2, "fold": 3}
+
+
+def _call_term(callee, args, dest, t, unwind, span, exp, dest_ty=""):
+    return {"k": "call", "callee": callee, "callee_args": [], "params": [], "resolved": None, "resolved_args": [], "rkind": None, "args": args, "arg_tys": [], "dest": dest, "dest_ty": dest_ty, "t": t, "unwind": unwind, "fn_span": span, "fn_exp": exp, "span": span, "exp": exp, "synthetic": True}
+
+
+def desugar_internal_iteration(prog, rec):
+    """`iter.try_fold(init, |acc, x| …)`, `try_for_each`, `for_each`, `fold`, `any`, `all` with a
+    closure literal, written out as the `while let Some(x) = iter.next()` loop that the library's
+    default implementations are (core::iter::Iterator): the closure body becomes the loop body in
+    place, so the loop rules (order of visits, per-iteration effects, early exit on the first
+    error) apply as they do to a `for` loop."""
+    changed = False
+    blocks = rec["blocks"]
+    for bi in range(len(blocks)):
+        t = blocks[bi]["term"]
+        if not t or t["k"] != "call" or t["t"] is None:
+            continue
+        cn = strip_generics(t.get("callee") or "")
+        if not cn.startswith("std::iter::Iterator::"):
+            continue
+        m = cn.split("::")[-1]
+        nargs = _BY_REF_ITER.get(m) or _BY_VAL_ITER.get(m)
+        if nargs is None or len(t["args"]) != nargs:
+            continue
+        f = t["args"][-1]
+        kdef = _closure_def_of(rec, f)
+        kb = prog.bodies.get(kdef) if kdef else None
+        want_params = 3 if m in ("try_fold", "fold") else 2
+        if kb is None or kb.coroutine or kb.arg_count != want_params or len(kb.blocks) > 400 or kb.path == rec["path"]:
+            continue
+        it = t["args"][0]
+        if it.get("k") not in ("move", "copy"):
+            continue
+        sp, ex, cl, uw = t.get("span"), t.get("exp", ""), blocks[bi]["cleanup"], t["unwind"]
+
+        def new_local(ty):
+            rec["locals"].append({"ty": ty, "ty_def": None, "user": False})
+            return len(rec["locals"]) - 1
+
+        pre = []
+        if m in _BY_VAL_ITER:
+            if it["pl"]["p"]:
+                continue
+            rl = new_local("&mut iter")
+            pre.append({"k": "assign", "pl": {"l": rl, "p": []}, "rv": {"k": "ref", "bk": "mut", "pl": {"l": it["pl"]["l"], "p": []}}, "span": sp, "exp": ex})
+            it_ref = {"k": "copy", "pl": {"l": rl, "p": []}}
+        else:
+            it_ref = dict(copy.deepcopy(it), k="copy")
+        acc = None
+        if m in ("try_fold", "fold"):
+            acc = new_local("acc")
+            pre.append({"k": "assign", "pl": {"l": acc, "p": []}, "rv": {"k": "use", "op": copy.deepcopy(t["args"][1])}, "span": sp, "exp": ex})
+        nl = new_local("std::option::Option<item>")
+        dl = new_local("isize")
+        dest = copy.deepcopy(t["dest"])
+        T = t["t"]
+        # blocks: H (next), S (test), N (exhausted), then the closure copy and its continuation
+        H = len(blocks)
+        blocks.append({"cleanup": cl, "stmts": [], "term": None})
+        S = len(blocks)
+        blocks.append({"cleanup": cl, "stmts": [{"k": "assign", "pl": {"l": dl, "p": []}, "rv": {"k": "discr", "pl": {"l": nl, "p": []}, "adt": "std::option::Option", "variants": [["0", "None"], ["1", "Some"]]}, "span": sp, "exp": ex}], "term": None})
+        N = len(blocks)
+        blocks.append({"cleanup": cl, "stmts": [], "term": None})
+        blocks[H]["term"] = _call_term("std::iter::Iterator::next", [it_ref], {"l": nl, "p": []}, S, uw, sp, ex)
+        ity = ((t.get("arg_tys") or [""])[0] or "").replace("&mut ", "", 1)
+        if ity:
+            blocks[H]["term"]["resolved"] = "<%s as std::iter::Iterator>::next" % ity
+            blocks[H]["term"]["arg_tys"] = ["&mut " + ity]
+        true_c = {"k": "const", "ty": "bool", "v": "true", "int": "1"}
+        false_c = {"k": "const", "ty": "bool", "v": "false", "int": "0"}
+        unit = {"k": "agg", "ak": "tuple", "ops": []}
+        if m in ("try_fold", "try_for_each"):
+            if m == "try_for_each":
+                ul = new_local("()")
+                blocks[N]["stmts"].append({"k": "assign", "pl": {"l": ul, "p": []}, "rv": unit, "span": sp, "exp": ex})
+                blocks[N]["term"] = _call_term("std::ops::Try::from_output", [{"k": "move", "pl": {"l": ul, "p": []}}], dest, T, uw, sp, ex)
+            else:
+                blocks[N]["term"] = _call_term("std::ops::Try::from_output", [{"k": "move", "pl": {"l": acc, "p": []}}], dest, T, uw, sp, ex)
+            cf = new_local("std::ops::ControlFlow<r, c>")
+            cd = new_local("isize")
+            rl2 = new_local("closure result")
+            res = new_local("residual")
+            B2 = len(blocks)  # after the closure returned: r.branch()
+            blocks.append({"cleanup": cl, "stmts": [], "term": None})
+            Q = len(blocks)
+            blocks.append({"cleanup": cl, "stmts": [{"k": "assign", "pl": {"l": cd, "p": []}, "rv": {"k": "discr", "pl": {"l": cf, "p": []}, "adt": "std::ops::ControlFlow", "variants": [["0", "Continue"], ["1", "Break"]]}, "span": sp, "exp": ex}], "term": None})
+            C = len(blocks)
+            cst = [{"k": "assign", "pl": {"l": acc, "p": []}, "rv": {"k": "use", "op": {"k": "move", "pl": {"l": cf, "p": [["dc", "Continue", 0], ["f", 0, "0"]]}}}, "span": sp, "exp": ex}] if acc is not None else []
+            blocks.append({"cleanup": cl, "stmts": cst, "term": {"k": "goto", "t": H, "span": sp, "exp": ex}})
+            K = len(blocks)
+            blocks.append({"cleanup": cl, "stmts": [{"k": "assign", "pl": {"l": res, "p": []}, "rv": {"k": "use", "op": {"k": "move", "pl": {"l": cf, "p": [["dc", "Break", 1], ["f", 0, "0"]]}}}, "span": sp, "exp": ex}], "term": _call_term("std::ops::FromResidual::from_residual", [{"k": "move", "pl": {"l": res, "p": []}}], copy.deepcopy(dest), T, uw, sp, ex)})
+            blocks[B2]["term"] = _call_term("std::ops::Try::branch", [{"k": "move", "pl": {"l": rl2, "p": []}}], {"l": cf, "p": []}, Q, uw, sp, "desugar:QuestionMark")
+            blocks[Q]["term"] = {"k": "switch", "op": {"k": "move", "pl": {"l": cd, "p": []}}, "ty": "isize", "targets": [["0", C], ["1", K]], "otherwise": C, "span": sp, "exp": "desugar:QuestionMark"}
+            on_ret = lambda l0: [{"k": "assign", "pl": {"l": rl2, "p": []}, "rv": {"k": "use", "op": {"k": "move", "pl": {"l": l0, "p": []}}}, "span": sp, "exp": ex}]
+            after = B2
+            thread_local = rl2
+            if not dest["p"]:
+                blocks[K]["term"]["t"] = _thread_chain(rec, T, set(), {dest["l"]}, "Err")
+                blocks[N]["term"]["t"] = _thread_chain(rec, T, set(), {dest["l"]}, "Ok")
+        elif m == "for_each":
+            blocks[N]["stmts"].append({"k": "assign", "pl": dest, "rv": unit, "span": sp, "exp": ex})
+            blocks[N]["term"] = {"k": "goto", "t": T, "span": sp, "exp": ex}
+            on_ret = lambda l0: []
+            after = H
+        elif m == "fold":
+            blocks[N]["stmts"].append({"k": "assign", "pl": dest, "rv": {"k": "use", "op": {"k": "move", "pl": {"l": acc, "p": []}}}, "span": sp, "exp": ex})
+            blocks[N]["term"] = {"k": "goto", "t": T, "span": sp, "exp": ex}
+            on_ret = lambda l0: [{"k": "assign", "pl": {"l": acc, "p": []}, "rv": {"k": "use", "op": {"k": "move", "pl": {"l": l0, "p": []}}}, "span": sp, "exp": ex}]
+            after = H
+        elif m in ("find", "position"):
+            none_rv = {"k": "agg", "ak": "adt", "adt": "std::option::Option", "variant": "None", "fields": [], "ops": []}
+            blocks[N]["stmts"].append({"k": "assign", "pl": dest, "rv": none_rv, "span": sp, "exp": ex})
+            blocks[N]["term"] = {"k": "goto", "t": T, "span": sp, "exp": ex}
+            bl = new_local("bool")
+            item = new_local("item")
+            if m == "find":
+                found_op = {"k": "move", "pl": {"l": item, "p": []}}
+                miss_stmts = []
+                cnt = None
+            else:
+                cnt = new_local("usize")
+                pre.append({"k": "assign", "pl": {"l": cnt, "p": []}, "rv": {"k": "use", "op": {"k": "const", "ty": "usize", "v": "0_usize", "int": "0"}}, "span": sp, "exp": ex})
+                found_op = {"k": "copy", "pl": {"l": cnt, "p": []}}
+                miss_stmts = [{"k": "assign", "pl": {"l": cnt, "p": []}, "rv": {"k": "bin", "op": "Add", "a": {"k": "copy", "pl": {"l": cnt, "p": []}}, "b": {"k": "const", "ty": "usize", "v": "1_usize", "int": "1"}}, "span": sp, "exp": ex}]
+            X = len(blocks)
+            blocks.append({"cleanup": cl, "stmts": [{"k": "assign", "pl": copy.deepcopy(dest), "rv": {"k": "agg", "ak": "adt", "adt": "std::option::Option", "variant": "Some", "fields": ["0"], "ops": [found_op]}, "span": sp, "exp": ex}], "term": {"k": "goto", "t": T, "span": sp, "exp": ex}})
+            M = len(blocks)
+            blocks.append({"cleanup": cl, "stmts": miss_stmts, "term": {"k": "goto", "t": H, "span": sp, "exp": ex}})
+            Y = len(blocks)
+            blocks.append({"cleanup": cl, "stmts": [], "term": {"k": "switch", "op": {"k": "copy", "pl": {"l": bl, "p": []}}, "ty": "bool", "targets": [["0", M]], "otherwise": X, "span": sp, "exp": ex}})
+            on_ret = lambda l0: [{"k": "assign", "pl": {"l": bl, "p": []}, "rv": {"k": "use", "op": {"k": "move", "pl": {"l": l0, "p": []}}}, "span": sp, "exp": ex}]
+            after = Y
+        else:  # any / all
+            hit, miss = (true_c, false_c) if m == "any" else (false_c, true_c)
+            blocks[N]["stmts"].append({"k": "assign", "pl": dest, "rv": {"k": "use", "op": miss}, "span": sp, "exp": ex})
+            blocks[N]["term"] = {"k": "goto", "t": T, "span": sp, "exp": ex}
+            bl = new_local("bool")
+            X = len(blocks)  # the closure said "stop"
+            blocks.append({"cleanup": cl, "stmts": [{"k": "assign", "pl": copy.deepcopy(dest), "rv": {"k": "use", "op": hit}, "span": sp, "exp": ex}], "term": {"k": "goto", "t": T, "span": sp, "exp": ex}})
+            Y = len(blocks)
+            stop_val = "1" if m == "any" else "0"
+            blocks.append({"cleanup": cl, "stmts": [], "term": {"k": "switch", "op": {"k": "copy", "pl": {"l": bl, "p": []}}, "ty": "bool", "targets": [[stop_val, X]], "otherwise": H, "span": sp, "exp": ex}})
+            on_ret = lambda l0: [{"k": "assign", "pl": {"l": bl, "p": []}, "rv": {"k": "use", "op": {"k": "move", "pl": {"l": l0, "p": []}}}, "span": sp, "exp": ex}]
+            after = Y
+        payload = {"k": "move", "pl": {"l": nl, "p": [["dc", "Some", 1], ["f", 0, "0"]]}}
+        args = ([{"k": "move", "pl": {"l": acc, "p": []}}] if m in ("try_fold", "fold") else []) + [payload]
+        bind_pre = []
+        if m in ("find", "position"):
+            bind_pre.append({"k": "assign", "pl": {"l": item, "p": []}, "rv": {"k": "use", "op": payload}, "span": sp, "exp": ex})
+            if m == "find":
+                rf = new_local("&item")
+                bind_pre.append({"k": "assign", "pl": {"l": rf, "p": []}, "rv": {"k": "ref", "bk": "shared", "pl": {"l": item, "p": []}}, "span": sp, "exp": ex})
+                args = [{"k": "move", "pl": {"l": rf, "p": []}}]
+            else:
+                args = [{"k": "copy", "pl": {"l": item, "p": []}}]
+        entry = _splice_closure(prog, rec, _closure_rec(prog, kb), f, args, after, uw, cl, sp, ex, on_ret, thread=thread_local if m in ("try_fold", "try_for_each") else None)
+        if bind_pre:
+            blocks[entry]["stmts"] = bind_pre + blocks[entry]["stmts"]
+        blocks[S]["term"] = {"k": "switch", "op": {"k": "move", "pl": {"l": dl, "p": []}}, "ty": "isize", "targets": [["0", N], ["1", entry]], "otherwise": N, "span": sp, "exp": "desugar:ForLoop"}
+        blocks[bi]["stmts"].extend(pre)
+        blocks[bi]["term"] = {"k": "goto", "t": H, "span": sp, "exp": ex, "desugared": cn}
         changed = True
     return changed
 
@@ -570,6 +951,8 @@ def inline_rec(prog, rec, done, stack):
     """rec with every inlinable call replaced by the callee's (already inlined) blocks"""
     rec = copy.deepcopy(rec)
     changed = desugar_combinators(prog, rec)
+    changed = desugar_internal_iteration(prog, rec) or changed
+    changed = thread_const_flags(rec) or changed
     bi = 0
     n_inl = 0
     while bi < len(rec["blocks"]):
@@ -641,13 +1024,30 @@ def inline_rec(prog, rec, done, stack):
         rec.setdefault("inlined", []).append(crec["path"])
         changed = True
         n_inl += 1
+    if changed:
+        rec["transformed"] = True
+    return rec if changed else None
+
+
+def desugar_only(prog, rec):
+    rec = copy.deepcopy(rec)
+    changed = desugar_combinators(prog, rec)
+    changed = desugar_internal_iteration(prog, rec) or changed
+    changed = thread_const_flags(rec) or changed
+    if changed:
+        rec["transformed"] = True
     return rec if changed else None
 
 
 def get_inlined(prog, body, done, stack):
     if body.path in done:
         return done[body.path]
-    r = inline_rec(prog, body.rec, done, stack) if _caller_ok(body) else None
+    if body.test:
+        r = None
+    elif _caller_ok(body):
+        r = inline_rec(prog, body.rec, done, stack)
+    else:
+        r = desugar_only(prog, body.rec)
     done[body.path] = r if r is not None else body.rec
     return done[body.path]
 
@@ -671,4 +1071,19 @@ def apply(prog):
             replaced.append((path, rec.get("inlined", [])))
     prog._cg = None
     prog.inlined = replaced
+    # a closure literal whose only consumer was written out in place is not separate code any more
+    spliced = set()
+    for path in [p_ for p_, _ in replaced]:
+        spliced |= set(prog.bodies[path].rec.get("inlined_closures") or [])
+    more = True
+    while more:
+        more = False
+        for b in prog.bodies.values():
+            if b.path not in spliced and b.def_kind == "Closure" and any(b.path.startswith(sp + "::") for sp in spliced):
+                spliced.add(b.path)
+                more = True
+    for sp in spliced:
+        if sp in prog.bodies:
+            prog.bodies[sp].spliced = True
+    prog.spliced = spliced
     return replaced
